@@ -155,7 +155,7 @@ def run_harness(h, crate, root, tier):
         if sel:
             cmd += ["-Z", "unstable-options", "--cbmc-args", "--unwindset", ",".join(sel)]
     logp = os.path.join(root, "log_" + name + ".txt")
-    rc, out, dt = run(cmd, cwd=crate, timeout=timeout, mem_gb=h.get("mem_gb", 24), log_path=logp)
+    rc, out, dt = run(cmd, cwd=crate, timeout=timeout, mem_gb=h.get("mem_gb", 40), log_path=logp)
     res["wall_s"] = round(dt, 2)
     res["raw_log"] = logp
     if rc == -9:
